@@ -77,6 +77,7 @@ theorem lexDot_fuel : ∀ (f1 f2 : Nat) (l : List Char), l.length ≤ f1 → l.l
         refine ite_congr rfl (fun hc => ?_) (fun _ => rfl)
         have h3 : (spanId (c :: cs)).2 = (spanId cs).2 := by simp [spanId, hc]
         have := spanId_length cs
+        refine ite_congr rfl (fun _ => ?_) (fun _ => rfl)
         rw [h3, ih g _ (by omega) (by omega)]
 
 /-! ### backward-chaining rules -/
@@ -135,8 +136,54 @@ theorem lex_str {v rest : List Char} {ts : List Tok} (hv : ∀ ch ∈ v, ch ≠ 
   unfold Lexes at *
   simp [lexDot, isSpaceChar, C20.quote_roundtrip v rest hv, this]
 
-/-- a non-empty list of ID characters -/
-def IdOk (xs : List Char) : Prop := xs ≠ [] ∧ ∀ ch ∈ xs, isIdChar ch = true
+/-- a non-empty list of ID characters that is an identifier or a numeral -/
+def IdOk (xs : List Char) : Prop := xs ≠ [] ∧ (∀ ch ∈ xs, isIdChar ch = true) ∧ validIdRun xs = true
+
+theorem isIdChar_of_isIdentChar {ch : Char} (h : isIdentChar ch = true) : isIdChar ch = true := by
+  simp only [isIdentChar, isIdChar, Bool.or_eq_true] at h ⊢
+  exact Or.inl h
+
+theorem isIdentChar_of_isIdentStart {ch : Char} (h : isIdentStart ch = true) : isIdentChar ch = true := by
+  simp only [isIdentChar, isIdentStart, Char.isAlphanum, Bool.or_eq_true] at h ⊢
+  rcases h with h | h
+  · exact Or.inl (Or.inl h)
+  · exact Or.inr h
+
+/-- an identifier is an acceptable unquoted ID -/
+theorem idOk_of_ident {xs : List Char} (h : isIdentRun xs = true) : IdOk xs := by
+  cases xs with
+  | nil => simp [isIdentRun] at h
+  | cons x xs =>
+    simp only [isIdentRun, Bool.and_eq_true, List.all_eq_true] at h
+    refine ⟨by simp, ?_, ?_⟩
+    · intro ch hch
+      rcases List.mem_cons.1 hch with rfl | hch
+      · exact isIdChar_of_isIdentChar (isIdentChar_of_isIdentStart h.1)
+      · exact isIdChar_of_isIdentChar (h.2 ch hch)
+    · simp only [validIdRun, isIdentRun, Bool.or_eq_true, Bool.and_eq_true, List.all_eq_true]
+      exact Or.inl h
+
+theorem dropWhile_isDigit_of_all {xs : List Char} (h : ∀ ch ∈ xs, ch.isDigit = true) :
+    xs.dropWhile Char.isDigit = [] := by
+  induction xs with
+  | nil => rfl
+  | cons x xs ih =>
+    rw [List.dropWhile_cons, if_pos (h x (by simp))]
+    exact ih (fun ch hch => h ch (by simp [hch]))
+
+/-- a non-empty string of digits is a numeral, hence an acceptable unquoted ID -/
+theorem idOk_of_digits {xs : List Char} (hne : xs ≠ []) (h : ∀ ch ∈ xs, ch.isDigit = true) : IdOk xs := by
+  refine ⟨hne, ?_, ?_⟩
+  · intro ch hch
+    simp [isIdChar, Char.isAlphanum, h ch hch]
+  · cases xs with
+    | nil => exact absurd rfl hne
+    | cons x xs =>
+      have hx := h x (by simp)
+      have hdot : x ≠ '.' := by
+        intro e; subst e; revert hx; decide
+      have hd := dropWhile_isDigit_of_all (xs := xs) (fun ch hch => h ch (by simp [hch]))
+      simp [validIdRun, isNumeralRun, hdot, hx, hd]
 
 theorem spanId_append {xs : List Char} {d : Char} {rest : List Char} (hx : ∀ ch ∈ xs, isIdChar ch = true)
     (hd : isIdChar d = false) : spanId (xs ++ d :: rest) = (xs, d :: rest) := by
@@ -159,7 +206,7 @@ theorem idChar_not_special {x : Char} (hx : isIdChar x = true) :
 /-- an unquoted ID, followed by a character that ends it -/
 theorem lex_id {xs : List Char} {d : Char} {rest : List Char} {ts : List Tok} (hx : IdOk xs)
     (hd : isIdChar d = false) (h : Lexes (d :: rest) ts) : Lexes (xs ++ d :: rest) (Tok.id xs :: ts) := by
-  obtain ⟨hne, hall⟩ := hx
+  obtain ⟨hne, hall, hvalid⟩ := hx
   cases xs with
   | nil => exact absurd rfl hne
   | cons x xs =>
@@ -172,6 +219,6 @@ theorem lex_id {xs : List Char} {d : Char} {rest : List Char} {ts : List Tok} (h
     simp only [List.cons_append, List.length_cons, lexDot] at hsp ⊢
     simp only [h1, h2, h3, h4, h5, h6, h7, h8, h9, h10, hx, if_false, if_true, Bool.false_eq_true]
     rw [hsp]
-    simp [this]
+    simp [this, hvalid]
 
 end AJ.Proofs.C20Lex
